@@ -526,6 +526,51 @@ def _lower_ifexp(body):
     return out
 
 
+def _lower_continue(stmts):
+    """Loop body with its `continue` statements replaced by structure: `if c: continue; REST` becomes `if c: pass else: REST` (the rest of the
+    round runs exactly when no continue was reached).  Only continues of THIS loop in (nested) if-branches are handled; -> new statement list,
+    or None when a continue sits somewhere else (try / with) or only on part of a branch."""
+    def own_continue(n):
+        if isinstance(n, ast.Continue):
+            return True
+        if isinstance(n, (ast.For, ast.While, ast.FunctionDef, ast.AsyncFunctionDef, ast.ClassDef)):
+            return False
+        return any(own_continue(c) for c in ast.iter_child_nodes(n))
+
+    def low(seq):
+        """-> (statements, every path ends in continue) or None"""
+        out = []
+        for k, s_ in enumerate(seq):
+            if isinstance(s_, ast.Continue):
+                return out, True
+            if not own_continue(s_):
+                out.append(s_)
+                continue
+            if not isinstance(s_, ast.If):
+                return None
+            b, o, rest = low(s_.body), low(s_.orelse), low(seq[k + 1:])
+            if b is None or o is None or rest is None:
+                return None
+            (b, bt), (o, ot), (rest, rt) = b, o, rest
+            n_ = copy.copy(s_)
+            if bt and ot:
+                n_.body, n_.orelse = b or [ast.Pass()], o
+                out.append(n_)
+                return out, True
+            if bt:
+                n_.body, n_.orelse = b or [ast.Pass()], o + rest
+                out.append(n_)
+                return out, False if not rt else False
+            if ot:
+                n_.body, n_.orelse = (b + rest) or [ast.Pass()], o
+                out.append(n_)
+                return out, False
+            return None
+        return out, False
+    r = low(list(stmts))
+    return None if r is None else r[0]
+
+
 def flatten_body(methods, body, depth=3, consts=None, stop=(), ho_only=False, impure=False):
     consts = dict(consts or {})
     out = []
@@ -559,6 +604,12 @@ def flatten_body(methods, body, depth=3, consts=None, stop=(), ho_only=False, im
                 items = _const_items(it, consts)
             if ho_only and isinstance(it, ast.Call) and not enum:
                 items = None        # resolving callbacks only: counting loops stay loops
+            if items is not None and len(items) <= 12 and any(isinstance(n, ast.Continue) for n in ast.walk(st)) \
+                    and not any(isinstance(n, ast.Break) for n in ast.walk(st)):
+                low = _lower_continue(st.body)
+                if low is not None:
+                    st = copy.copy(st)
+                    st.body = low or [ast.Pass()]
             if items is not None and len(items) <= 12 and not any(isinstance(n, (ast.Break, ast.Continue)) for n in ast.walk(st)):
                 unrolled = []
                 ok = True
